@@ -10,6 +10,30 @@
     After every step the harness measures, against the shipped files loaded independently,
     the content of what was built, memory sharing with cached arrays, and cache integrity.
  3. The recorded traces are judged by TLC (CacheTrace / ScaleTrace).
+
+Added by the audit (all judged by TLC; the pure model runs execute beside the replays):
+ 4. Request layer (spec/CacheReq.tla): a grid may be asked for by any number that denotes it (tabulated or not, degree or
+    size, Python or NumPy integer, 0) and with the method name in any letter case.  The specification resolves the
+    request over the tables extracted from the library; CacheTrace cross-checks the harness' resolution, the degree and
+    size the object reports, and the content against the file of the REQUESTED grid.
+ 5. CacheSys.NewAtomSet / Use: atomic grids whose shells use several degrees, built through degrees= (list / array),
+    sizes= (tabulated / not), from_pruned (d_sectors / s_sectors) and from_preset, with and without rotation and an r = 0
+    shell; both branches of get_shell_grid (r_sq, rotation) - every shell grid is the matching slice of the atomic grid;
+    MolGrid.from_size with store on/off and get_atomic_grid; read-only uses (integrate, get_localgrid) of returned grids.
+    No new tolerance: the Gram-matrix comparison of rotated shells re-uses the bound of the AtomRot event
+    (atol 1e-11 (1 + r^2); measured on the unchanged tree over all grids <= 200 points, three seeds: <= 9e-16 (1 + r^2);
+    a relative change of 1e-7 of the points - the shell-grid-scales-cache mutant - gives 2e-7 r^2), everything else the existing allclose(1e-12, 1e-13).
+ 6. ScaleMulti / ScaleMultiTrace: TWO transform objects (same or different class, bare or wrapped in InverseRTransform),
+    all eight transform / derivative / inverse-derivative operations, argument arrays ascending, descending, shuffled,
+    with a duplicated maximum, int64, float32, NumPy scalars and 0-d arrays; after a call the caller scribbles over the
+    array it passed; a call with an all-zero grid while the scale is undetermined must leave nothing behind
+    (the library does leave b = 0.0 behind: known finding, see known_findings.d/C19.json).  All comparisons are exact
+    (array_equal against a fresh object with the scale passed explicitly; scales are integers).
+ 7. CoulombSys / CoulombGen / CoulombTrace: the lazily loaded parameter table as its own machine - TLC enumerates every
+    behaviour of length 4 (Load by number / symbol, refused lookups, Edit, Drop), each is replayed with several
+    spellings of the element (int, numpy int, symbol in any case, padded) and kinds of refused lookups; every Load is
+    compared with the JSON file read independently, with the first values returned for that element, and for memory
+    shared with the module's table or with an earlier result.  The variant that hands out cached arrays is refuted.
 """
 from __future__ import annotations
 
@@ -54,6 +78,34 @@ def _caches():
 def _okd(a, b):
     a, b = np.asarray(a, dtype=float), np.asarray(b, dtype=float)
     return "ok" if a.shape == b.shape and np.allclose(a, b, rtol=1e-12, atol=1e-13) else "dirty"
+
+
+def _resolve(tabs, m, by, r):
+    """(degree, size) of the tabulated grid that a request denotes: the first row whose degree (size) is >= r.
+    The specification (CacheReq.tla) states the same rule and TLC cross-checks every New event against it."""
+    for deg, size in tabs[m]["deg"]:
+        if (deg if by == "degree" else size) >= r:
+            return int(deg), int(size)
+    return 0, 0
+
+
+SPELL = {"lebedev": ["lebedev", "Lebedev", "LEBEDEV", "lEbEdEv"], "spherical": ["spherical", "Spherical", "SPHERICAL", "sPhErIcAl"],
+         "maxdet": ["maxdet", "Maxdet", "MAXDET", "MaxDet"], "ahrens_beylkin": ["ahrens_beylkin", "Ahrens_Beylkin", "AHRENS_BEYLKIN", "Ahrens_beylkin"]}
+
+
+def _requests(tabs, m, d):
+    """Every way the harness asks for the tabulated grid (m, d): (by, number, numpy-integer?)."""
+    rows = [(int(a), int(b)) for a, b in tabs[m]["deg"]]
+    k = [a for a, _ in rows].index(int(d))
+    size = rows[k][1]
+    out = [("degree", d, False), ("degree", d, True), ("size", size, False), ("size", size, True)]
+    lo_d = rows[k - 1][0] + 1 if k else 0
+    lo_s = rows[k - 1][1] + 1 if k else 0
+    if lo_d < d:
+        out += [("degree", lo_d, False), ("degree", d - 1, True)]
+    if lo_s < size:
+        out += [("size", lo_s, False), ("size", size - 1, True)]
+    return out
 
 
 class CacheDriver:
@@ -112,10 +164,18 @@ class CacheDriver:
         return e
 
     # -- actions ----------------------------------------------------------------------------
-    def new(self, m, d, flag, by_size=False, ignored_degree=None):
+    def new(self, m, d, flag, by_size=False, ignored_degree=None, req=None, mreq=None):
         """AngularGrid(degree=d) - or, with by_size, the same grid requested through its size, the degree
-        argument (default 50, or ``ignored_degree``) being documented as ignored."""
+        argument (default 50, or ``ignored_degree``) being documented as ignored.  ``req`` = (by, number, numpy?)
+        asks for the grid through any number that denotes it (see _requests), ``mreq`` spells the method."""
         e = self._ev("New", m=m, d=int(d), flag=bool(flag), p="dirty", w="dirty", pa=False, wa=False, incache=False)
+        if m != "coulomb":
+            if req is None:
+                req = ("size", dict(self.tabs[m]["deg"])[int(d)], False) if by_size else ("degree", int(d), False)
+            by, num, npint = req
+            mreq = mreq or m
+            e.update(by=by, req=int(num), mreq=mreq, od=-1, os=-1)
+            num = np.int64(num) if npint else int(num)
         try:
             with warnings.catch_warnings():
                 warnings.simplefilter("ignore")
@@ -129,14 +189,14 @@ class CacheDriver:
                     self.objs.append((m, a, b))
                 else:
                     from grid.angular import AngularGrid
-                    if by_size:
-                        size = dict(self.tabs[m]["deg"])[int(d)]
+                    if by == "size":
                         if ignored_degree is None:
-                            g = AngularGrid(size=size, method=m, cache=bool(flag))
+                            g = AngularGrid(size=num, method=mreq, cache=bool(flag))
                         else:
-                            g = AngularGrid(degree=int(ignored_degree), size=size, method=m, cache=bool(flag))
+                            g = AngularGrid(degree=int(ignored_degree), size=num, method=mreq, cache=bool(flag))
                     else:
-                        g = AngularGrid(degree=int(d), method=m, cache=bool(flag))
+                        g = AngularGrid(degree=num, method=mreq, cache=bool(flag))
+                    e["od"], e["os"] = int(g.degree), int(g.size)
                     # the grid REQUESTED (a tabulated degree, or the size of one) - not whatever degree the
                     # returned object reports
                     p, w = _shipped(m, int(d), self.tabs)
@@ -242,8 +302,169 @@ class CacheDriver:
         e["clean"] = self._clean()
         self.events.append(e)
 
-    def run(self, beh, mmap, dmap):
+    # -- atomic grids whose shells use several degrees; every constructor that reaches _generate_atomic_grid ------
+    HOWS = ("list", "array", "sizes", "sizes-nontab", "pruned-d", "pruned-s", "preset")
+
+    def atomset(self, m, ds, how="list", rot=0, mreq=None, zero=False):
+        """AtomGrid over three shells of degrees ds = [d1, d2] (pattern depends on the constructor), built through
+        ``how``; then both shell-extraction branches (r_sq, rotation), then the caller scribbles over everything."""
+        from grid.atomgrid import AtomGrid
+        from grid.basegrid import OneDGrid
+        # (only the degrees= path of AtomGrid lower-cases the method name before it is used; the sizes / pruned / preset
+        #  paths refuse other spellings whatever the history - not a matter of this property, so they get the plain name)
+        mreq = (mreq or m) if how in ("list", "array") else m
+        d1, d2 = int(ds[0]), int(ds[1])
+        size = dict(self.tabs[m]["deg"])
+        r = np.array([0.0, 1.5, 2.5]) if zero else np.array([0.5, 1.5, 2.5])
+        rg = OneDGrid(r, np.array([0.25, 0.75, 0.5]), (0, np.inf))
+        cen = np.array([0.2, -0.3, 0.1])
+        e = self._ev("AtomSet", m=m, mreq=mreq, how=how, rot=int(rot), by="degree", reqs=[], ds=[], p="dirty", w="dirty", pa=False, wa=False)
+        try:
+            with warnings.catch_warnings():
+                warnings.simplefilter("ignore")
+                kw = dict(center=cen.copy(), rotate=int(rot), method=mreq)
+                if how == "list":
+                    reqs, ag = [d1, d2, d1], AtomGrid(rg, degrees=[d1, d2, d1], **kw)
+                elif how == "array":
+                    reqs, ag = [d2, d1, d1], AtomGrid(rg, degrees=np.array([d2, d1, d1]), **kw)
+                elif how == "sizes":
+                    reqs, ag = [size[d1], size[d2], size[d1]], AtomGrid(rg, sizes=[size[d1], size[d2], size[d1]], **kw)
+                    e["by"] = "size"
+                elif how == "sizes-nontab":
+                    reqs = [size[d1] - 1, size[d2] - 1, size[d2]]
+                    ag = AtomGrid(rg, degrees=None, sizes=np.array(reqs), **kw)
+                    e["by"] = "size"
+                elif how == "pruned-d":
+                    reqs, ag = [d1, d2, d2], AtomGrid.from_pruned(rg, 1.0, r_sectors=[1.0], d_sectors=[d1, d2], **kw)
+                elif how == "pruned-s":
+                    reqs = [size[d1], size[d2], size[d2]]
+                    ag = AtomGrid.from_pruned(rg, 1.0, r_sectors=[1.0], d_sectors=None, s_sectors=[size[d1], size[d2]], **kw)
+                    e["by"] = "size"
+                else:   # preset: the degrees come from the shipped preset table; the object's own report names the shells
+                    ag = AtomGrid.from_preset(atnum=1, preset="coarse", rgrid=rg, **kw)
+                    reqs = [int(x) for x in ag.degrees]
+                degs = [_resolve(self.tabs, m, e["by"], q)[0] for q in reqs]
+                e["reqs"], e["ds"] = [int(q) for q in reqs], degs
+                okp = okw = True
+                al_p = self._aliases(ag.points, m) or self._aliases(ag._points, m)
+                al_w = self._aliases(ag.weights, m)
+                pts = np.asarray(ag.points) - cen
+                idx = np.asarray(ag.indices)
+                okp = okp and len(idx) == 4 and [int(x) for x in ag.degrees] == degs
+                for k, (dk, rk, wk) in enumerate(zip(degs, rg.points, rg.weights)):
+                    P, W = _shipped(m, dk, self.tabs)
+                    if not okp or idx[k + 1] - idx[k] != len(W):
+                        okp = False
+                        break
+                    sh = pts[idx[k]:idx[k + 1]]
+                    if rot:
+                        okp = okp and np.allclose(sh @ sh.T, (P * rk) @ (P * rk).T, rtol=0, atol=1e-11 * (1 + rk * rk))
+                    else:
+                        okp = okp and _okd(sh, P * rk) == "ok"
+                    okw = okw and _okd(ag.weights[idx[k]:idx[k + 1]], W * wk * rk ** 2) == "ok"
+                    # shell extraction: both weight conventions; the shell grid is the matching slice of the atomic grid
+                    for r_sq in (True, False):
+                        sg = ag.get_shell_grid(k, r_sq=r_sq)
+                        okp = okp and _okd(sg.points, sh) == "ok"
+                        okw = okw and _okd(sg.weights, W * wk * (rk ** 2 if r_sq else 1.0)) == "ok"
+                        al_p = al_p or self._aliases(sg.points, m)
+                        al_w = al_w or self._aliases(sg.weights, m)
+                        sg.points[...] = 7.0
+                        sg.weights[...] = -1.0
+                e["p"], e["w"] = ("ok" if okp else "dirty"), ("ok" if okw else "dirty")
+                e["pa"], e["wa"] = bool(al_p), bool(al_w)
+                for name in ("center", "weights", "indices", "points"):
+                    arr = getattr(ag, name)
+                    if isinstance(arr, np.ndarray) and arr.flags.writeable:
+                        arr += 3
+        except Exception as ex:
+            e["exc"] = type(ex).__name__
+        e["clean"] = self._clean()
+        self.events.append(e)
+
+    def molsize(self, d, store):
+        """MolGrid.from_size (Lebedev only; seeded rotation of every shell) and the per-atom grids it hands out."""
+        m = "lebedev"
+        e = self._ev("MolSize", m=m, d=int(d), p="dirty", w="dirty", pa=False, wa=False)
+        try:
+            with warnings.catch_warnings():
+                warnings.simplefilter("ignore")
+                from grid.molgrid import MolGrid
+                P, W = _shipped(m, int(d), self.tabs)
+                n = len(W)
+                rg = self._rgrid()
+                cs = np.array([[0.0, 0.0, -0.8], [0.0, 0.3, 0.9]])
+                mg = MolGrid.from_size(np.array([1, 8]), cs.copy(), size=n, rgrid=rg, rotate=5, store=bool(store))
+                okp, al = True, self._aliases(mg.points, m)
+                for a in (0, 1):
+                    at = mg.get_atomic_grid(a)
+                    pts = np.asarray(at.points) - cs[a]
+                    al = al or self._aliases(at.points, m)
+                    for i, r in enumerate(rg.points):
+                        sh = pts[i * n:(i + 1) * n]
+                        okp = okp and sh.shape == P.shape and np.allclose(sh @ sh.T, (P * r) @ (P * r).T, rtol=0, atol=1e-11 * (1 + r * r))
+                    at.points[...] = 9.0
+                exp_w = np.hstack([W * wr * r ** 2 for _ in (0, 1) for r, wr in zip(rg.points, rg.weights)])
+                e["p"], e["w"] = ("ok" if okp else "dirty"), _okd(mg.atweights, exp_w)
+                e["pa"], e["wa"] = bool(al), self._aliases(mg.atweights, m) or self._aliases(mg.weights, m)
+                for name in ("weights", "points", "atweights", "atcoords", "indices"):
+                    arr = getattr(mg, name)
+                    if isinstance(arr, np.ndarray) and arr.flags.writeable:
+                        arr += 2
+        except Exception as ex:
+            e["exc"] = type(ex).__name__
+        e["clean"] = self._clean()
+        self.events.append(e)
+
+    def use(self, i):
+        """Read-only use of a returned grid (integration, local grid): nothing may reach the caches, and what the
+        operations hand out is not cached memory either."""
+        if not (1 <= i <= len(self.objs)):
+            return
+        e = self._ev("Use", i=int(i), pa=False)
+        o = self.objs[i - 1]
+        try:
+            with warnings.catch_warnings():
+                warnings.simplefilter("ignore")
+                if len(o) == 4:
+                    g = o[3]
+                    g.integrate(np.ones(g.size))
+                    loc = g.get_localgrid(np.array([0.0, 0.0, 1.0]), 1.2)
+                    e["pa"] = self._aliases(loc.points, o[0]) or self._aliases(loc.weights, o[0])
+                    if loc.size:
+                        loc.points[...] = 5.0
+                        loc.weights[...] = 5.0
+        except Exception as ex:
+            e["exc"] = type(ex).__name__
+        e["clean"] = self._clean()
+        self.events.append(e)
+
+    def run(self, beh, mmap, dmap, pick=None):
+        """Replay a behaviour of CacheGen.  ``pick`` (a random.Random) chooses, for every abstract action, one of the
+        concrete ways to perform it (request spelling, constructor); without it the plain forms are used."""
         for act, a, b, c in beh:
+            if pick is not None and act in ("New", "AtomSet", "Mol"):
+                m = mmap[a]
+                if act == "New":
+                    d = dmap[m][b]
+                    if pick.random() < 0.5:
+                        self.new(m, d, c, req=pick.choice(_requests(self.tabs, m, d)), mreq=pick.choice(SPELL[m]))
+                    else:
+                        self.new(m, d, c)
+                elif act == "AtomSet":
+                    self.atomset(m, [dmap[m][3], dmap[m][5]], how=pick.choice(self.HOWS), rot=pick.choice([0, 0, 5]),
+                                 mreq=pick.choice(SPELL[m]), zero=pick.random() < 0.25)
+                elif m == "lebedev" and pick.random() < 0.3:
+                    self.molsize(dmap[m][b], store=pick.random() < 0.5)
+                else:
+                    self.atom(m, dmap[m][b], act)
+                continue
+            if act == "AtomSet":
+                self.atomset(mmap[a], [dmap[mmap[a]][3], dmap[mmap[a]][5]])
+                continue
+            if act == "Use":
+                self.use(b)
+                continue
             if act == "New":
                 self.new(mmap[a], dmap[mmap[a]][b], c)
             elif act == "Edit":
@@ -275,7 +496,11 @@ class ScaleDriver:
     def _b(tf):
         if tf.b is None:
             return 0
-        b = float(tf.b)
+        try:
+            a = np.asarray(tf.b, dtype=float).reshape(-1)
+            b = float(a[0]) if a.size == 1 else float("nan")
+        except Exception:  # noqa: BLE001   (whatever a changed library keeps there must not crash the harness)
+            return -7
         return int(b) if (np.isfinite(b) and b.is_integer() and 0 < b < 1e6) else -7   # -7: not a value the harness ever supplied
 
     def _do(self, tf, op, x):
@@ -325,28 +550,301 @@ def _scale_traces(rng, n):
 
 
 # --------------------------------------------------------------------------------------------
-def _model_runs(rep, wd):
-    r = tlc.run_tlc("CacheSys", "MC_Cache_copying.cfg", wd, workers=16, coverage=True, timeout=900).require_ok("copying")
-    rep.tlc(r, "MC_Cache_copying")
-    if r.status == "violation":
-        rep.violation("model:design", f"the copying design violates {r.violated}", tlc.last_state(r))
-    for act in ("NewAngular", "Edit", "Drop", "NewAtom", "Shell", "AtomOp", "NewAtomRot", "NewMol"):
-        if act in r.coverage and r.coverage[act][1] == 0:
-            raise tlc.MachineryError(f"vacuity: action {act} never taken")
-    r2 = tlc.run_tlc("CacheSys", "MC_Cache_asShippedFresh.cfg", wd, workers=4).require_ok("asShipped")
-    rep.set("as_shipped_variant_refuted", r2.status == "violation")
-    if r2.status != "violation":
-        raise tlc.MachineryError("as-shipped aliasing variant is not refuted: the model lost its teeth")
-    r3 = tlc.run_tlc("CacheSys", "MC_Cache_witness.cfg", wd, workers=4).require_ok("witness")
-    if r3.status != "violation":
-        raise tlc.MachineryError("vacuity: witness edit-then-rebuild not reachable")
-    r4 = tlc.run_tlc("ScaleSys", "MC_Scale.cfg", wd, workers=4).require_ok("scale")
-    rep.tlc(r4, "MC_Scale")
-    if r4.status == "violation":
-        rep.violation("model:scale", f"ScaleSys violates {r4.violated}", tlc.last_state(r4))
+class ScaleDriver2:
+    """Two transform objects in one process (spec/ScaleMulti.tla): bare or wrapped in InverseRTransform, called with
+    argument arrays in any order and dtype; after a call the caller may scribble over the array it passed."""
+    XOPS = ["transform", "deriv", "deriv2", "deriv3", "transform_1d_grid"]                 # argument in the domain
+    ROPS = ["inverse", "deriv_inverse", "deriv2_inverse", "deriv3_inverse"]                # argument in the codomain
+    WRAP_ROPS = ["transform", "deriv", "deriv2", "deriv3"]                                 # InverseRTransform: radii in
+    WRAP_XOPS = ["inverse", "deriv_inverse"]
+    SHAPES = ["asc", "desc", "shuffled", "dupmax", "int", "f32", "scalar", "0d"]
+
+    def __init__(self, specs):
+        import grid.rtransform as rt
+        self.rt = rt
+        self.specs = specs                      # [(class name, b0, wrapped?)] * 2
+        self.inner = [getattr(rt, c)(0.5, 20.0, b=(None if b0 == 0 else float(b0))) for c, b0, _ in specs]
+        self.tfs = [rt.InverseRTransform(t) if w else t for t, (_, _, w) in zip(self.inner, specs)]
+        self.last_x = [None, None]
+        self.events = [{"ev": "Setup", "b0": [int(b0) for _, b0, _ in specs], "cls": [c for c, _, _ in specs],
+                        "wrap": [bool(w) for _, _, w in specs]}]
+
+    @staticmethod
+    def _bval(tf):
+        """The remembered scale as the specification sees it: 0 = None, a positive integer, -7 = anything else."""
+        try:
+            b = tf.b
+            if b is None:
+                return 0
+            a = np.asarray(b, dtype=float).reshape(-1)
+            if a.size != 1:
+                return -7
+            v = float(a[0])
+            return int(v) if (np.isfinite(v) and v.is_integer() and 0 < v < 1e6) else -7
+        except Exception:  # noqa: BLE001
+            return -7
+
+    def _ball(self):
+        return [self._bval(t) for t in self.inner]
+
+    def _fresh(self, k, b):
+        t = getattr(self.rt, self.specs[k][0])(0.5, 20.0, b=b)
+        return self.rt.InverseRTransform(t) if self.specs[k][2] else t
+
+    @staticmethod
+    def _do(tf, op, x):
+        from grid.basegrid import OneDGrid
+        if op == "transform_1d_grid":
+            g = tf.transform_1d_grid(OneDGrid(x, np.ones(len(x)), (0, np.inf)))
+            return np.concatenate([g.points, g.weights])
+        return np.asarray(getattr(tf, op)(x))
+
+    def ops(self, k):
+        return (self.WRAP_ROPS + self.WRAP_XOPS) if self.specs[k][2] else (self.XOPS + self.ROPS)
+
+    def array(self, k, op, n, shape, rng):
+        radii = op in (self.WRAP_ROPS if self.specs[k][2] else self.ROPS)
+        v = np.arange(n, dtype=float) + (1.0 if radii else 0.0)
+        if shape == "desc":
+            v = v[::-1].copy()
+        elif shape == "shuffled":
+            v = v[rng.permutation(n)]
+            if v[-1] == v.max():                        # never leave the maximum at the end
+                v[[0, -1]] = v[[-1, 0]]
+        elif shape == "dupmax":
+            v = np.concatenate([[v.max()], v[rng.permutation(n)], [v.min()]])
+        elif shape == "int":
+            v = v[rng.permutation(n)].astype(np.int64)
+        elif shape == "f32":
+            v = v[::-1].astype(np.float32)
+        elif shape == "scalar":
+            v = np.float64(n)
+        elif shape == "0d":
+            v = np.array(float(n))
+        return v
+
+    def call(self, k, op, x, zero=False):
+        """k: 0/1.  x is handed to the library as it is and remembered for a later Scribble."""
+        x0 = x.copy()
+        e = {"ev": "Call", "k": k + 1, "op": op, "cls": self.specs[k][0], "wrap": bool(self.specs[k][2]), "dtype": str(x.dtype),
+             "xmax": int(np.max(x0)), "maxlast": bool(np.ravel(x0)[-1] == np.max(x0)), "bpre": self._ball(), "bpost": [0, 0], "pure": True, "dep": False, "exc": ""}
+        try:
+            with warnings.catch_warnings():
+                warnings.simplefilter("ignore")
+                try:
+                    got = self._do(self.tfs[k], op, x)
+                finally:
+                    e["bpost"] = self._ball()
+                    self.last_x[k] = x
+                bnow = self.inner[k].b
+                ref = self._do(self._fresh(k, bnow), op, x0.copy())
+                e["pure"] = bool(np.array_equal(got, ref, equal_nan=True))
+                r1 = self._do(self._fresh(k, 3.0), op, x0.copy())
+                r2 = self._do(self._fresh(k, 11.0), op, x0.copy())
+                e["dep"] = not bool(np.array_equal(r1, r2, equal_nan=True))
+        except Exception as ex:
+            e["exc"] = type(ex).__name__
+        self.events.append(e)
+
+    def scribble(self, k):
+        if self.last_x[k] is None:
+            return
+        e = {"ev": "Scribble", "k": k + 1, "cls": self.specs[k][0], "wrap": bool(self.specs[k][2]), "op": "caller-edits-passed-array",
+             "bpre": self._ball(), "exc": ""}
+        if isinstance(self.last_x[k], np.ndarray):
+            self.last_x[k] += 100
+            if self.last_x[k].ndim:
+                self.last_x[k][...] = self.last_x[k][::-1].copy()
+        e["bpost"] = self._ball()
+        self.events.append(e)
 
 
-def _validate(rep, wd, traces, meta, module, cfgname, fname, label):
+def _scale2_traces(rng, nprng, n):
+    classes = ["LinearInfiniteRTransform", "ExpRTransform", "PowerRTransform"]
+    out = []
+    for t in range(n):
+        c1 = classes[t % 3]
+        c2 = c1 if rng.random() < 0.5 else rng.choice(classes)      # often two objects of ONE class
+        d = ScaleDriver2([(c1, rng.choice([0, 0, 5, 9]), rng.random() < 0.25), (c2, rng.choice([0, 0, 0, 7]), rng.random() < 0.25)])
+        zero_trace = (t % 7 == 3)       # a minority of the traces contains a call with an all-zero grid (see the ZeroCall action)
+        lastk = None
+        for _ in range(rng.randint(3, 8)):
+            k = rng.randint(0, 1)
+            u = rng.random()
+            if u < 0.2 and lastk is not None:
+                d.scribble(lastk)
+                lastk = None
+                continue
+            if zero_trace and u > 0.8 and not d.specs[k][2]:
+                d.call(k, rng.choice(["transform", "deriv"]), np.zeros(rng.choice([1, 4])))
+                lastk = k
+                continue
+            op = rng.choice(d.ops(k))
+            shape = rng.choice(ScaleDriver2.SHAPES)
+            if op == "transform_1d_grid" and shape in ("int", "scalar", "0d"):
+                shape = "desc"
+            d.call(k, op, d.array(k, op, rng.choice([4, 6, 11]), shape, nprng))
+            lastk = k
+        out.append(d.events)
+    return out
+
+
+# --------------------------------------------------------------------------------------------
+class CoulombDriver:
+    """The lazily loaded Coulomb parameter table (spec/CoulombSys.tla)."""
+    SPELLINGS = ["int", "npint", "symbol", "lower", "upper", "padded"]
+    REFUSED = {"unknown-symbol": "Xx", "unknown-number": 200, "not-fitted": 2, "not-fitted-symbol": "he", "bad-type": 1.0}
+
+    def __init__(self, coul_ref):
+        import grid.coulomb as coul
+        self.coul = coul
+        self.ref = coul_ref
+        coul._ATOMIC_GAUSS_PARAMS_CACHE = None
+        self.held = []
+        self.first = {}
+        self.events = []
+
+    def _kept(self):
+        """Every ndarray reachable from the module's cache (one level of nesting is what the loader could keep)."""
+        tab = self.coul._ATOMIC_GAUSS_PARAMS_CACHE
+        out = []
+        if isinstance(tab, dict):
+            for v in tab.values():
+                for x in (v.values() if isinstance(v, dict) else v if isinstance(v, (list, tuple)) else []):
+                    if isinstance(x, np.ndarray):
+                        out.append(x)
+        return out
+
+    def _clean(self):
+        tab = self.coul._ATOMIC_GAUSS_PARAMS_CACHE
+        if tab is None:
+            return True
+        if not isinstance(tab, dict):
+            return False
+        for sym, ref in self.ref.items():
+            if sym in tab:
+                v = tab[sym]
+                for k, r in ref.items():
+                    if not isinstance(v, dict) or k not in v or _okd(v[k], r) != "ok":
+                        return False
+        return True
+
+    def _arg(self, z, sp):
+        sym = _sym(int(z))
+        return {"int": int(z), "npint": np.int64(z), "symbol": sym, "lower": sym.lower(), "upper": sym.upper(), "padded": f"  {sym} "}[sp]
+
+    def load(self, z, sp):
+        e = {"ev": "Load", "z": int(z), "sp": sp, "c": "dirty", "a": "dirty", "ca": False, "aa": False, "ua": False, "same": False,
+             "clean": True, "exc": ""}
+        try:
+            c, a = self.coul.load_atomic_gaussian_params(self._arg(z, sp))
+            ref = self.ref[_sym(int(z))]
+            e["c"], e["a"] = _okd(c, ref["coeffs_s"]), _okd(a, ref["alphas_s"])
+            kept = self._kept()
+            e["ca"] = any(np.shares_memory(c, x) for x in kept)
+            e["aa"] = any(np.shares_memory(a, x) for x in kept)
+            e["ua"] = any(np.shares_memory(y, x) for y in (c, a) for h in self.held for x in h[1:]) or np.shares_memory(c, a)
+            f = self.first.setdefault(int(z), (np.array(c, copy=True), np.array(a, copy=True)))
+            e["same"] = bool(np.array_equal(f[0], c) and np.array_equal(f[1], a))
+            self.held.append((int(z), c, a))
+        except Exception as ex:
+            e["exc"] = type(ex).__name__
+        e["clean"] = self._clean()
+        self.events.append(e)
+
+    def edit(self, i, part):
+        if not (1 <= i <= len(self.held)):
+            return
+        e = {"ev": "Edit", "i": int(i), "part": part, "clean": True, "exc": ""}
+        arr = self.held[i - 1][1 if part == "c" else 2]
+        try:
+            arr += 1.0
+            arr *= 1.5
+        except Exception as ex:
+            e["exc"] = type(ex).__name__
+        e["clean"] = self._clean()
+        self.events.append(e)
+
+    def drop(self, i):
+        if not (1 <= i <= len(self.held)):
+            return
+        del self.held[i - 1]
+        self.events.append({"ev": "Drop", "i": int(i), "clean": self._clean(), "exc": ""})
+
+    def refused(self, kind):
+        e = {"ev": "Refused", "kind": kind, "clean": True, "exc": "", "returned": False}
+        try:
+            self.coul.load_atomic_gaussian_params(self.REFUSED[kind])
+            e["returned"] = True
+        except Exception as ex:
+            e["exc"] = type(ex).__name__
+        e["clean"] = self._clean()
+        self.events.append(e)
+
+    def run(self, beh, spmap, kindmap):
+        for act, a, b in beh:
+            if act == "Load":
+                self.load(b, spmap[a])
+            elif act == "Edit":
+                self.edit(b, a)
+            elif act == "Drop":
+                self.drop(b)
+            else:
+                self.refused(kindmap[a])
+        return self.events
+
+
+SPMAPS = [{"int": "int", "lower": "lower"}, {"int": "npint", "lower": "upper"}, {"int": "symbol", "lower": "padded"},
+          {"int": "padded", "lower": "int"}]
+KINDMAPS = [{"unknown-symbol": "unknown-symbol", "not-fitted": "not-fitted"}, {"unknown-symbol": "unknown-number", "not-fitted": "not-fitted-symbol"},
+            {"unknown-symbol": "bad-type", "not-fitted": "not-fitted"}]
+
+
+# --------------------------------------------------------------------------------------------
+def _model_runs(rep, wd, parts=("cache", "scale", "coulomb")):
+    """The pure model-checking runs (no observation of the library involved)."""
+    if "cache" in parts:
+        r = tlc.run_tlc("CacheSys", "MC_Cache_copying.cfg", wd, workers=8, coverage=True, timeout=900).require_ok("copying")
+        rep.tlc(r, "MC_Cache_copying")
+        if r.status == "violation":
+            rep.violation("model:design", f"the copying design violates {r.violated}", tlc.last_state(r))
+        for act in ("NewAngular", "Edit", "Drop", "NewAtom", "Shell", "AtomOp", "NewAtomRot", "NewMol", "NewAtomSet", "Use"):
+            if act in r.coverage and r.coverage[act][1] == 0:
+                raise tlc.MachineryError(f"vacuity: action {act} never taken")
+        r2 = tlc.run_tlc("CacheSys", "MC_Cache_asShippedFresh.cfg", wd, workers=4).require_ok("asShipped")
+        rep.set("as_shipped_variant_refuted", r2.status == "violation")
+        if r2.status != "violation":
+            raise tlc.MachineryError("as-shipped aliasing variant is not refuted: the model lost its teeth")
+        r3 = tlc.run_tlc("CacheSys", "MC_Cache_witness.cfg", wd, workers=4).require_ok("witness")
+        if r3.status != "violation":
+            raise tlc.MachineryError("vacuity: witness edit-then-rebuild not reachable")
+    if "scale" in parts:
+        r4 = tlc.run_tlc("ScaleSys", "MC_Scale.cfg", wd, workers=4).require_ok("scale")
+        rep.tlc(r4, "MC_Scale")
+        if r4.status == "violation":
+            rep.violation("model:scale", f"ScaleSys violates {r4.violated}", tlc.last_state(r4))
+        r5 = tlc.run_tlc("ScaleMulti", "MC_ScaleMulti.cfg", wd, workers=2).require_ok("scale-multi")
+        rep.tlc(r5, "MC_ScaleMulti")
+        if r5.status == "violation":
+            rep.violation("model:scale-multi", f"ScaleMulti violates {r5.violated}", tlc.last_state(r5))
+        r6 = tlc.run_tlc("ScaleMulti", "MC_ScaleMulti_witness.cfg", wd, workers=2).require_ok("scale-multi-witness")
+        if r6.status != "violation":
+            raise tlc.MachineryError("vacuity: two objects with different fixed scales not reachable")
+    if "coulomb" in parts:
+        r7 = tlc.run_tlc("CoulombSys", "MC_CoulombTab_fresh.cfg", wd, workers=2).require_ok("coulomb-fresh")
+        rep.tlc(r7, "MC_CoulombTab_fresh")
+        if r7.status == "violation":
+            rep.violation("model:coulomb", f"CoulombSys (fresh arrays on every call) violates {r7.violated}", tlc.last_state(r7))
+        r8 = tlc.run_tlc("CoulombSys", "MC_CoulombTab_cached.cfg", wd, workers=2).require_ok("coulomb-cached")
+        rep.set("coulomb_handing_out_cached_arrays_refuted", r8.status == "violation")
+        if r8.status != "violation":
+            raise tlc.MachineryError("the variant that hands out cached parameter arrays is not refuted")
+        r9 = tlc.run_tlc("CoulombSys", "MC_CoulombTab_witness.cfg", wd, workers=2).require_ok("coulomb-witness")
+        if r9.status != "violation":
+            raise tlc.MachineryError("vacuity: witness edit-then-load not reachable")
+
+
+def _validate(rep, wd, traces, meta, module, cfgname, fname, label, who=None):
     with open(wd / fname, "w") as f:
         json.dump(traces, f)
     res = tlc.run_tlc(module, cfgname, wd, workers=1, timeout=1500, xmx="12g").require_ok(module)
@@ -358,7 +856,7 @@ def _validate(rep, wd, traces, meta, module, cfgname, fname, label):
     for _, tid, pos, evname, clause in rej:
         ev = traces[tid - 1][pos - 1]
         mt = meta[tid - 1]
-        what = ev.get("m") or (mt.get("cls") if isinstance(mt, dict) else None) or "?"
+        what = who(ev) if who else (ev.get("m") or (mt.get("cls") if isinstance(mt, dict) else None) or "?")
         rep.violation(f"{label}:{what}:{evname}:{clause}",
                       f"{label}: event {pos} ({evname}) of a recorded trace is not allowed by the specification: {clause}; "
                       f"trace so far {json.dumps(traces[tid - 1][:pos])[:600]}",
@@ -368,16 +866,21 @@ def _validate(rep, wd, traces, meta, module, cfgname, fname, label):
     return len(acc)
 
 
-def run(tier: str) -> int:
-    rep = Report(PROP, tier, "model_checking")
-    rng = random.Random(rep.seed)
-    wd = tlc.scratch(f"{PROP}-{tier}")
-    _model_runs(rep, wd)
-    tabs = extract.angular_tables()
-    with open(extract.DATA / "atomic_gauss_params.json") as f:
-        coul_ref = {k: {kk: np.asarray(vv, dtype=float) for kk, vv in v.items() if isinstance(vv, list)}
-                    for k, v in json.load(f).items()}
+ALLM = ["lebedev", "spherical", "maxdet", "ahrens_beylkin"]
+_G: dict = {}
 
+
+def _replay_chunk(jobs):
+    out = []
+    for beh, ci, vs in jobs:
+        mmap, dmap = _G["conc"][ci]
+        out.append(CacheDriver(_G["tabs"], _G["coul_ref"]).run(beh, mmap, dmap, pick=None if vs is None else random.Random(vs)))
+    return out
+
+
+def _cache_part(rep, wd, tier, rng, tabs, coul_ref, pool=None):
+    with open(wd / "tabs_c19.json", "w") as f:
+        json.dump({m: [{"d": int(d), "s": int(s)} for d, s in tabs[m]["deg"]] for m in ALLM}, f)
     g = tlc.run_tlc("CacheGen", "Gen_Cache.cfg", wd, workers=8, timeout=900).require_ok("Gen_Cache")
     rep.tlc(g, "Gen_Cache")
     behs = sorted(b[1] for b in tlc.tagged(g.stdout, "BEH"))
@@ -385,87 +888,218 @@ def run(tier: str) -> int:
         raise tlc.MachineryError(f"only {len(behs)} behaviours generated")
     rep.set("tlc_behaviours_generated", len(behs))
 
-    def degs(m):
-        ds = [d for d, s in tabs[m]["deg"] if s <= 200]
-        return {3: ds[0], 5: ds[1]}
-    concretisations = [
-        ({"lebedev": "lebedev", "maxdet": "maxdet"}, {m: degs(m) for m in ("lebedev", "maxdet")}),
-        ({"lebedev": "spherical", "maxdet": "ahrens_beylkin"}, {m: degs(m) for m in ("spherical", "ahrens_beylkin")}),
-    ]
+    concretisations = _G["conc"]
     traces, meta = [], []
     sel = behs if tier == "thorough" else rng.sample(behs, 1500)
+    jobs = []
     for bi, beh in enumerate(sel):
-        for ci, (mmap, dmap) in enumerate(concretisations):
+        for ci in range(len(concretisations)):
             if tier == "quick" and (bi + ci) % 2:
                 continue
-            ev = CacheDriver(tabs, coul_ref).run(beh, mmap, dmap)
-            if ev:
-                traces.append(ev)
-                meta.append({"behaviour": beh, "methods": mmap})
+            # every other behaviour is replayed with the plain forms of the calls, the others with randomly chosen
+            # equivalent forms (request spelling, constructor, rotation); the choice depends on (seed, behaviour) only
+            varied = (bi // 2 + ci) % 2 == 1
+            jobs.append((beh, ci, (rep.seed * 1000003 + bi * 2 + ci) if varied else None))
+    if pool is not None:
+        # the replays are independent (every one starts from empty caches): eight forked workers (they inherit the imported
+        # library as it is, including the in-process mutants of the selftest)
+        chunks = [jobs[k:k + 400] for k in range(0, len(jobs), 400)]
+        done = [ev for part in pool.map(_replay_chunk, chunks) for ev in part]
+    else:
+        done = _replay_chunk(jobs)
+    for (beh, ci, vs), ev in zip(jobs, done):
+        if ev:
+            traces.append(ev)
+            meta.append({"behaviour": beh, "methods": concretisations[ci][0], "varied": vs is not None})
     # random longer behaviours over all methods + the Coulomb table
-    allm = ["lebedev", "spherical", "maxdet", "ahrens_beylkin"]
+    allm = ALLM
     small = {m: [d for d, s in tabs[m]["deg"] if s <= 200][:3] for m in allm}
+    # also: Lebedev degrees with negative weights (warning branch), the smallest grids, and in the thorough tier larger ones
+    extra = {"lebedev": [13, 25, 27], "spherical": [1], "maxdet": [1, 2], "ahrens_beylkin": []}
+    if tier == "thorough":
+        for m in allm:
+            extra[m] = extra[m] + [d for d, s in tabs[m]["deg"] if 200 < s <= 1600][::4]
     nrand = 150 if tier == "quick" else 2000
     elements = [1, 6, 8, 17]
     for _ in range(nrand):
         d = CacheDriver(tabs, coul_ref)
-        beh = []
         for _ in range(rng.randint(4, 12)):
             x = rng.random()
             m = rng.choice(allm)
+            pool = small[m] + (extra[m] if rng.random() < 0.15 else [])
             if x < 0.35:
                 if rng.random() < 0.15:
                     d.new("coulomb", rng.choice(elements), True)
                 else:
                     r = rng.random()
-                    dd = rng.choice(small[m])
+                    dd = rng.choice(pool)
                     built = [o for o in d.objs if o[0] == m and len(o) == 4]
                     if r < 0.08:
                         d.new("maxdet", 50, True)          # the default value of the (ignored) degree argument is tabulated here
-                    elif r < 0.30:
+                    elif r < 0.25:
                         d.new(m, dd, rng.random() < 0.6, by_size=True)
-                    elif r < 0.45 and built:
+                    elif r < 0.40 and built:
                         d.new(m, dd, rng.random() < 0.6, by_size=True, ignored_degree=int(rng.choice(built)[3].degree))
+                    elif r < 0.70:
+                        d.new(m, dd, rng.random() < 0.6, req=rng.choice(_requests(tabs, m, dd)), mreq=rng.choice(SPELL[m]))
                     else:
                         d.new(m, dd, rng.random() < 0.6)
-            elif x < 0.6:
+            elif x < 0.57:
                 if d.objs:
                     d.edit(rng.randint(1, len(d.objs)), rng.choice("pw"))
+            elif x < 0.62:
+                if d.objs:
+                    d.use(rng.randint(1, len(d.objs)))
             elif x < 0.7:
                 if d.objs:
                     d.drop(rng.randint(1, len(d.objs)))
+            elif x < 0.82:
+                ds = rng.sample(small[m], 2)
+                d.atomset(m, ds, how=rng.choice(CacheDriver.HOWS), rot=rng.choice([0, 0, 5]), mreq=rng.choice(SPELL[m]), zero=rng.random() < 0.25)
+            elif x < 0.86:
+                d.molsize(rng.choice(small["lebedev"]), store=rng.random() < 0.5)
             else:
                 d.atom(m, rng.choice(small[m]), rng.choice(["Atom", "Shell", "AtomOp", "AtomRot", "Mol"]))
         if d.events:
             traces.append(d.events)
             meta.append({"random": True})
     for ev in traces:
-        rep.evaluated(len(ev), json.dumps([(e["ev"], e.get("m"), e.get("d"), e.get("flag"), e.get("i"), e.get("part")) for e in ev]))
-    useddeg = sorted({e["d"] for t in traces for e in t if "d" in e})
+        rep.evaluated(len(ev), json.dumps([(e["ev"], e.get("m"), e.get("d"), e.get("flag"), e.get("i"), e.get("part"), e.get("req"), e.get("how")) for e in ev]))
+    useddeg = sorted({e["d"] for t in traces for e in t if "d" in e} | {x for t in traces for e in t for x in e.get("ds", [])})
     (wd / "Trace_Cache.cfg").write_text(
         "SPECIFICATION TSpec\nCONSTANTS\n  Methods = {\"lebedev\", \"spherical\", \"maxdet\", \"ahrens_beylkin\", \"coulomb\"}\n"
         "  Scaled = {\"lebedev\", \"spherical\"}\n  Degrees = {" + ", ".join(map(str, useddeg)) + "}\n  MaxObjs = 1000\n"
         "  Aliasing = \"copying\"\nINVARIANT FreshIsShipped\nINVARIANT CacheClean\nINVARIANT NoAliasCacheUser\n")
     nacc = _validate(rep, wd, traces, meta, "CacheTrace", wd / "Trace_Cache.cfg", "traces_c19.json", "cache")
+    kinds = {}
+    for t in traces:
+        for e in t:
+            k = e["ev"] + (":" + e["how"] if "how" in e else "") + (":nontab" if e.get("req") not in (None, e.get("d"), e.get("os")) else "")
+            kinds[k] = kinds.get(k, 0) + 1
+    rep.set("cache_events_by_kind", kinds)
+    rep.sample({"cache_trace": traces[0]})
+    rep.sample({"cache_trace_random": traces[-1][:5]})
+    return len(traces), nacc
 
+
+def _scale_part(rep, wd, tier, rng):
     st = _scale_traces(rng, 300 if tier == "quick" else 5000)
     for ev in st:
         rep.evaluated(len(ev) - 1, json.dumps([(e.get("cls"), e.get("b0"), e.get("op"), e.get("xmax")) for e in ev]))
     (wd / "Trace_Scale.cfg").write_text("SPECIFICATION TSpec\nCONSTANTS\n  Ops = {}\n  XMaxs = {}\n  BInit = {}\n")
-    nacc += _validate(rep, wd, st, [e[0] for e in st], "ScaleTrace", wd / "Trace_Scale.cfg", "traces_scale.json", "scale")
-
-    if tier == "thorough":
-        # every AngularGrid construction made by the repository's angular / atomic-grid tests
-        from .. import record
-        record.judge_suite(rep, wd, "angular", ["src/grid/tests/test_angular.py", "src/grid/tests/test_atomgrid.py"], "angular")
-    rep.set("traces_validated_against_impl", len(traces) + len(st))
-    rep.set("traces_accepted", nacc)
-    rep.sample({"cache_trace": traces[0]})
-    rep.sample({"cache_trace_random": traces[-1][:5]})
+    nacc = _validate(rep, wd, st, [e[0] for e in st], "ScaleTrace", wd / "Trace_Scale.cfg", "traces_scale.json", "scale")
+    # two objects, arrays in any order / dtype, wrapped transforms, the caller scribbling over what it passed
+    nprng = np.random.default_rng(rep.seed)
+    st2 = _scale2_traces(rng, nprng, 400 if tier == "quick" else 6000)
+    for ev in st2:
+        rep.evaluated(len(ev) - 1, json.dumps([ev[0]["cls"], ev[0]["b0"], ev[0]["wrap"]] + [(e["ev"], e["k"], e.get("op"), e.get("xmax"), e.get("dtype")) for e in ev[1:]]))
+    (wd / "Trace_Scale2.cfg").write_text("SPECIFICATION TSpec\nCONSTANTS\n  Inst = {1, 2}\n  Ops = {}\n  XMaxs = {}\n  BInit = {}\n")
+    nacc += _validate(rep, wd, st2, [e[0] for e in st2], "ScaleMultiTrace", wd / "Trace_Scale2.cfg", "traces_scale2.json", "scale2",
+                      who=lambda e: ("Inverse(" + e["cls"] + ")" if e.get("wrap") else e.get("cls", "?")) + ":" + str(e.get("op", "")))
+    rep.set("scale2_events", {"calls": sum(1 for t in st2 for e in t if e["ev"] == "Call"),
+                              "scribbles": sum(1 for t in st2 for e in t if e["ev"] == "Scribble"),
+                              "zero_grid_calls": sum(1 for t in st2 for e in t if e["ev"] == "Call" and e["xmax"] == 0),
+                              "maximum_not_the_last_element": sum(1 for t in st2 for e in t if e["ev"] == "Call" and not e["maxlast"])})
     rep.sample({"scale_trace": st[0]})
-    rep.set("rule", "one case = one recorded event of a replayed behaviour (cache machine: New/Edit/Drop/Atom/Shell/AtomOp; "
-                    "scale machine: Call), judged by TLC; distinct = distinct event sequences")
+    rep.sample({"scale2_trace": st2[0]})
+    return len(st) + len(st2), nacc
+
+
+def _coulomb_part(rep, wd, tier, rng, coul_ref):
+    g = tlc.run_tlc("CoulombGen", "Gen_CoulombTab.cfg", wd, workers=4, timeout=900).require_ok("Gen_CoulombTab")
+    rep.tlc(g, "Gen_CoulombTab")
+    behs = sorted(b[1] for b in tlc.tagged(g.stdout, "CBEH"))
+    if len(behs) < 1000:
+        raise tlc.MachineryError(f"only {len(behs)} Coulomb-table behaviours generated")
+    rep.set("tlc_coulomb_behaviours_generated", len(behs))
+    traces, meta = [], []
+    for bi, beh in enumerate(behs):
+        for si in (range(len(SPMAPS)) if tier == "thorough" else [(bi + rep.seed) % len(SPMAPS)]):
+            ev = CoulombDriver(coul_ref).run(beh, SPMAPS[si], KINDMAPS[(bi + si) % len(KINDMAPS)])
+            traces.append(ev)
+            meta.append({"behaviour": beh, "spellings": SPMAPS[si]})
+    # random longer histories over every fitted element and spelling
+    for _ in range(200 if tier == "quick" else 3000):
+        d = CoulombDriver(coul_ref)
+        for _ in range(rng.randint(4, 12)):
+            x = rng.random()
+            if x < 0.5:
+                d.load(rng.choice([1, 6, 7, 8, 17]), rng.choice(CoulombDriver.SPELLINGS))
+            elif x < 0.75:
+                if d.held:
+                    d.edit(rng.randint(1, len(d.held)), rng.choice("ca"))
+            elif x < 0.85:
+                if d.held:
+                    d.drop(rng.randint(1, len(d.held)))
+            else:
+                d.refused(rng.choice(sorted(CoulombDriver.REFUSED)))
+        if d.events:
+            traces.append(d.events)
+            meta.append({"random": True})
+    for ev in traces:
+        rep.evaluated(len(ev), json.dumps([(e["ev"], e.get("z"), e.get("sp"), e.get("i"), e.get("part"), e.get("kind")) for e in ev]))
+    (wd / "Trace_CoulombTab.cfg").write_text(
+        "SPECIFICATION TSpec\nCONSTANTS\n  Fitted = {1, 6, 7, 8, 17}\n  Spell = {" + ", ".join(json.dumps(x) for x in CoulombDriver.SPELLINGS) + "}\n"
+        "  RefusedKinds = {" + ", ".join(json.dumps(x) for x in sorted(CoulombDriver.REFUSED)) + "}\n  MaxObjs = 1000\n  Handout = \"fresh\"\n"
+        "INVARIANT EveryCallEqual\nINVARIANT TableClean\nINVARIANT NoAliasTableUser\n")
+    nacc = _validate(rep, wd, traces, meta, "CoulombTrace", wd / "Trace_CoulombTab.cfg", "traces_coulomb.json", "coulomb",
+                     who=lambda e: f"{e.get('z', e.get('kind', ''))}:{e.get('sp', '')}")
+    rep.sample({"coulomb_trace": traces[0]})
+    return len(traces), nacc
+
+
+def run(tier: str, parts=("models", "cache", "scale", "coulomb", "suite")) -> int:
+    from concurrent.futures import ThreadPoolExecutor
+    rep = Report(PROP, tier, "model_checking")
+    rng = random.Random(rep.seed)
+    wd = tlc.scratch(f"{PROP}-{tier}")
+    tabs = extract.angular_tables()
+    with open(extract.DATA / "atomic_gauss_params.json") as f:
+        coul_ref = {k: {kk: np.asarray(vv, dtype=float) for kk, vv in v.items() if isinstance(vv, list)}
+                    for k, v in json.load(f).items()}
+    ntr = nacc = 0
+
+    def degs(m):
+        ds = [d for d, s in tabs[m]["deg"] if s <= 200]
+        return {3: ds[0], 5: ds[1]}
+    _G.update(tabs=tabs, coul_ref=coul_ref, conc=[
+        ({"lebedev": "lebedev", "maxdet": "maxdet"}, {m: degs(m) for m in ("lebedev", "maxdet")}),
+        ({"lebedev": "spherical", "maxdet": "ahrens_beylkin"}, {m: degs(m) for m in ("spherical", "ahrens_beylkin")})])
+    pool = None
+    if tier == "thorough" and "cache" in parts:
+        import multiprocessing as mp
+        pool = mp.get_context("fork").Pool(8)      # forked before any thread exists
+    # the pure model runs need nothing from the library: they run (as subprocesses) beside the replays
+    with ThreadPoolExecutor(1) as ex:
+        fut = ex.submit(_model_runs, rep, tlc.scratch(f"{PROP}-{tier}-models"),
+                        tuple(p for p in ("cache", "scale", "coulomb") if p in parts)) if "models" in parts else None
+        try:
+            if "cache" in parts:
+                a, b = _cache_part(rep, wd, tier, rng, tabs, coul_ref, pool)
+                ntr, nacc = ntr + a, nacc + b
+            if "scale" in parts:
+                a, b = _scale_part(rep, wd, tier, random.Random(rep.seed + 101))
+                ntr, nacc = ntr + a, nacc + b
+            if "coulomb" in parts:
+                a, b = _coulomb_part(rep, wd, tier, random.Random(rep.seed + 202), coul_ref)
+                ntr, nacc = ntr + a, nacc + b
+            if tier == "thorough" and "suite" in parts and "cache" in parts:
+                # every AngularGrid construction made by the repository's angular / atomic-grid tests
+                from .. import record
+                record.judge_suite(rep, wd, "angular", ["src/grid/tests/test_angular.py", "src/grid/tests/test_atomgrid.py"], "angular")
+        finally:
+            if pool is not None:
+                pool.terminate()
+            if fut is not None:
+                fut.result()
+    rep.set("traces_validated_against_impl", ntr)
+    rep.set("traces_accepted", nacc)
+    rep.set("rule", "one case = one recorded event of a replayed behaviour (cache machine: New/Edit/Drop/Use/Atom/Shell/AtomOp/AtomRot/Mol/"
+                    "MolSize/AtomSet; scale machines: Call/Scribble; Coulomb table: Load/Edit/Drop/Refused), judged by TLC; "
+                    "distinct = distinct event sequences")
     rep.assume("contents are compared with the shipped .npz/.json files loaded independently (allclose rtol 1e-12); an in-place edit adds 1 and scales by 1.5")
+    rep.assume("which tabulated grid a request denotes (least tabulated degree / size >= the number asked for) is stated by CacheReq.tla over the "
+               "tables extracted from the library; TLC cross-checks the harness' resolution of every request")
     return rep.finish()
 
 
@@ -524,7 +1158,150 @@ def selftest(tier: str = "quick") -> int:
             return store[element]
         return patched(coul, "load_atomic_gaussian_params", load)
 
-    muts = [("instance-aliases-cached-points", alias_points), ("instance-aliases-cached-weights", alias_weights_unscaled),
-            ("shell-grid-scales-cache", shell_scales_cache), ("b-overwritten", b_overwritten),
-            ("coulomb-loader-hands-out-cached-arrays", coulomb_cached_arrays)]
-    return run_mutants(PROP, run, muts, tier)
+    # ---- mutants for the dimensions added by the audit (each needs only one part of the check) -----------------
+    def nontab_degree_from_next_cached():  # "optimisation": a non-tabulated degree is served by the next degree already cached
+        orig = ang.AngularGrid._get_degree_and_size
+
+        def gds(degree, size, method):
+            if degree is not None and isinstance(degree, (int, np.integer)):
+                c = _caches().get(method, {})
+                tab = dict(extract.angular_tables()[method]["deg"]) if method in _caches() else {}
+                if degree not in tab:
+                    bigger = sorted(k for k in c if k >= degree)
+                    if bigger:
+                        return int(bigger[0]), int(tab[int(bigger[0])])
+            return orig(degree=degree, size=size, method=method)
+        return patched(ang.AngularGrid, "_get_degree_and_size", staticmethod(gds))
+
+    def mixed_case_method_aliases():  # the copy is skipped on the path taken by a method name that is not lower case
+        orig = ang.AngularGrid.__init__
+
+        def init(self, degree=50, *, size=None, cache=True, method="lebedev"):
+            orig(self, degree, size=size, cache=cache, method=method)
+            c = _caches()[method.lower()]
+            if method != method.lower() and self._degree in c:
+                self._points = c[self._degree][0]
+        return patched(ang.AngularGrid, "__init__", init)
+
+    def shell_unsquared_scales_cache():  # get_shell_grid(r_sq=False) works on the cached weights
+        orig = agm.AtomGrid.get_shell_grid
+
+        def gs(self, index, r_sq=True):
+            out = orig(self, index, r_sq)
+            c = _caches()[self.method]
+            d = self.degrees[index]
+            if r_sq is False and d in c:
+                c[d][1][...] = c[d][1] * 1.0000001
+            return out
+        return patched(agm.AtomGrid, "get_shell_grid", gs)
+
+    def sizes_branch_memo():  # sizes -> degrees conversion memoised without the method
+        orig = ang.AngularGrid.convert_angular_sizes_to_degrees
+        memo = {}
+
+        def conv(sizes, method):
+            key = len(sizes)
+            if key not in memo:
+                memo[key] = orig(sizes, method)
+            return memo[key]
+        return patched(ang.AngularGrid, "convert_angular_sizes_to_degrees", staticmethod(conv))
+
+    def scale_from_last_element():  # assumes the grid is sorted
+        def setb(self, x):
+            if self.b is None:
+                self._b = np.asarray(x).ravel()[-1]
+        return patched(rt.PowerRTransform, "set_maximum_parameter_b", setb)
+
+    def scale_is_view():  # remembers a view of the caller's array instead of a number
+        def setb(self, x):
+            if self.b is None:
+                x = np.asarray(x)
+                k = int(np.argmax(x))
+                self._b = x.ravel()[k:k + 1] if x.dtype == float else np.max(x)
+        return patched(rt.LinearInfiniteRTransform, "set_maximum_parameter_b", setb)
+
+    def scale_shared_by_class():  # the inferred scale is kept per class: a second object never looks at its own grid
+        store = {}
+
+        def setb(self, x):
+            if self.b is None:
+                self._b = store.setdefault("b", np.max(x))
+        return patched(rt.ExpRTransform, "set_maximum_parameter_b", setb)
+
+    def wrapper_reinfers():  # InverseRTransform.transform forgets the scale of the wrapped transform
+        orig = rt.InverseRTransform.transform
+
+        def tr(self, r):
+            if hasattr(self._tfm, "_b"):
+                self._tfm._b = None
+            return orig(self, r)
+        return patched(rt.InverseRTransform, "transform", tr)
+
+    def base_inverse_derivs_forget_scale():  # deriv3_inverse leaves the object without a scale ("each grid gets its own")
+        orig = rt.BaseTransform.deriv3_inverse
+
+        def d3i(self, r):
+            out = orig(self, r)
+            if hasattr(self, "_b"):
+                self._b = None
+            return out
+        return patched(rt.BaseTransform, "deriv3_inverse", d3i)
+
+    def coulomb_symbols_memoised():  # only lookups by symbol are memoised (after normalisation) - and the arrays are handed out
+        orig = coul.load_atomic_gaussian_params
+        store = {}
+
+        def load(element):
+            if isinstance(element, str):
+                k = element.strip().title()
+                if k not in store:
+                    store[k] = orig(element)
+                return store[k]
+            return orig(element)
+        return patched(coul, "load_atomic_gaussian_params", load)
+
+    def coulomb_refusal_drops_entries():  # a refused lookup leaves the table truncated
+        orig = coul.load_atomic_gaussian_params
+
+        def load(element):
+            try:
+                return orig(element)
+            except ValueError:
+                if isinstance(coul._ATOMIC_GAUSS_PARAMS_CACHE, dict):
+                    coul._ATOMIC_GAUSS_PARAMS_CACHE.pop("Cl", None)
+                raise
+        return patched(coul, "load_atomic_gaussian_params", load)
+
+    def coulomb_table_sorted_in_place():  # "normalises" the cached lists in place after the first lookup of an element
+        orig = coul.load_atomic_gaussian_params
+
+        def load(element):
+            out = orig(element)
+            tab = coul._ATOMIC_GAUSS_PARAMS_CACHE
+            for v in tab.values():
+                v["alphas_s"].sort()
+            return out
+        return patched(coul, "load_atomic_gaussian_params", load)
+
+    def only(*parts):
+        return lambda t: run(t, parts=parts)
+
+    groups = [
+        # (the pure model runs see nothing of the library: the mutants are run against the observing parts only)
+        (only("cache", "scale", "coulomb"), [("instance-aliases-cached-points", alias_points), ("instance-aliases-cached-weights", alias_weights_unscaled),
+               ("shell-grid-scales-cache", shell_scales_cache), ("b-overwritten", b_overwritten),
+               ("coulomb-loader-hands-out-cached-arrays", coulomb_cached_arrays)]),
+        (only("cache"), [("nontabulated-degree-served-by-next-cached-degree", nontab_degree_from_next_cached),
+                         ("mixed-case-method-name-aliases-cache", mixed_case_method_aliases),
+                         ("unsquared-shell-grid-scales-cached-weights", shell_unsquared_scales_cache),
+                         ("sizes-to-degrees-memoised-without-method", sizes_branch_memo)]),
+        (only("scale"), [("scale-taken-from-last-element", scale_from_last_element), ("scale-is-a-view-of-the-callers-array", scale_is_view),
+                         ("scale-shared-by-all-objects-of-a-class", scale_shared_by_class), ("inverse-wrapper-reinfers-scale", wrapper_reinfers),
+                         ("deriv3_inverse-forgets-the-scale", base_inverse_derivs_forget_scale)]),
+        (only("coulomb"), [("coulomb-symbol-lookups-memoised", coulomb_symbols_memoised), ("coulomb-refusal-truncates-table", coulomb_refusal_drops_entries),
+                           ("coulomb-table-sorted-in-place", coulomb_table_sorted_in_place)]),
+    ]
+    rc = 0
+    for fn, muts in groups:
+        rc = max(rc, run_mutants(PROP, fn, muts, tier))
+    return rc
